@@ -194,10 +194,6 @@ def real_inline(src):
     res["inlined_nodes"] = parent.children[pos:pos + nnew]
     res["status"] = "ok"
     try:
-        res["inlined"] = minif.export_stmt(list(res["inlined_nodes"]), names)
-    except minif.Unsupported as e:
-        res["unsupported"] = "result: " + str(e)
-    try:
         # only the transformed caller is written back; the rest of the file is the original text (keeps
         # FortranWriter defects on untouched routines, e.g. `dimension(1:)` -> `dimension()`, out of this check)
         new_main = FortranWriter()(caller)
@@ -206,6 +202,18 @@ def real_inline(src):
     except Exception as e:  # noqa: BLE001
         res["out_src"] = None
         res["write_error"] = type(e).__name__ + ": " + str(e)[:200]
+    # The exporter identifies variables by name.  Symbols left in a nested scope (none on the pinned tree: apply
+    # moves them to the routine's table) are distinct variables even when they share a name with a routine-level
+    # symbol (the backend declares them under fresh names), so give them distinguishable names before exporting.
+    # The tree is not used again after this point.
+    for k, sched in enumerate(caller.walk(N.Schedule)):
+        if sched is not caller:
+            for sym in list(sched.symbol_table.symbols):
+                sym._name = f"{sym.name}__scope{k}"        # pylint: disable=protected-access
+    try:
+        res["inlined"] = minif.export_stmt(list(res["inlined_nodes"]), names)
+    except minif.Unsupported as e:
+        res["unsupported"] = "result: " + str(e)
     return res
 
 
@@ -442,7 +450,7 @@ def run(chk):
     t0 = time.time()
     chk.lean()
     chk.cov["phase_s"] = {"lean": round(time.time() - t0, 1)}
-    n = 800 if chk.tier == "thorough" else 80
+    n = 800 if chk.tier == "thorough" else 60
     cases = []
     for path in sorted(glob.glob(os.path.join(common.ROOT, "corpus", "C07", "*.json"))):
         p = json.load(open(path))
@@ -504,7 +512,8 @@ def run(chk):
             elif "inlined" not in r:
                 dist["unsupported"] += 1
             else:
-                base = r["base_ids"]
+                # every name the caller cannot see (merged callee locals, renamed or not) is compared up to renaming
+                base = set(r["callsx"][1]) | set(r["callsx"][2])
                 a1, a2 = canon_stmt(m[1], base), canon_stmt(r["inlined"], base)
                 if a1 != a2:
                     agreed = False
